@@ -17,6 +17,14 @@ CHECKS = {
    text="Lean theorems over the byte-exact preimages of Info.Hash and Group.Hash (layouts regenerated from the source and tied by rfl): determinism incl. id canonicalisation, every single-field change (period, genesis, public key, seed, id; member key/index, threshold, genesis, transition incl. 0<->non-0, dist key, id) changes the preimage (inner hashes under an explicit collision-freedom hypothesis), joint injectivity under fixed key/seed lengths with the seed/id ambiguity exhibited otherwise, independence of node listing order (sorting of a permutation with distinct indices), chain hash ignores membership, decode rejects a mismatching embedded hash. Tied to the code by hashing the model's preimage (python hashlib) and comparing with the real Hash() on generated groups over all 5 schemes, plus equality across TOML/protobuf/JSON paths and inequality under perturbation on the real code.",
    note="Lean kernel + standard axioms; SHA-256/BLAKE2b collision freedom is a hypothesis; go2lean layout extractor; python hashlib; kyber point encodings opaque.",
    technique="Lean 4 proof (list/byte algebra, permutation sorting) + regenerated hash layouts tied by rfl + differential hash comparison"),
+ "C06": dict(engine="dkgrun", design="§3 C06, §5 row 12, §6 (partial)",
+   text="PARTIAL. Lean theorems over the model of SortedByPublicKey / setupDKG index assignment / asGroup / the transition-time tail of startDKGExecution: two listings of the same participants (pairwise distinct keys) sort to the same list, hence the same DKG index for every key and the same group from asGroup whatever order the lists were stored in; the final group is a function of (stored terms, QUAL indices, public coefficients, transition time), field by field (id, threshold, period, scheme, catch-up, genesis time, seed, transition time, members = participants at the QUAL indices of the sorted list, distributed key); epoch-1 seed = hash of the first group (C17 preimage); over a field F and an F-module G (Mathlib): a share is the evaluation of the public polynomial at the holder's point and any t shares at distinct points Lagrange-combine to f(0)·H(m), which verifies under the constant public coefficient. The transition time is proved equal on two nodes iff it is epoch 1 or both read their clocks in the same beacon round: the code takes it from each node's own time.Now(), so the full 'one group' statement is proved only under that hypothesis (c06_one_group_partial) with a concrete counterexample (c06_one_group_counterexample) that the check replays on the real code (known finding). NOT proved: that every completing node ends kyber's protocol with the same QUAL and coefficients under every schedule (hypothesis PedersenSpec) — sampled only, by running n real dkg.Process instances with the real kyber DKG over an in-memory client (permuted participant lists, delayed/reordered/duplicated bundles, a slow node, an offline node, completion held before/after/across a round boundary) and checking on the finished DBStates: groups pairwise Equal with equal hashes, share·base = PubPoly.Eval(index), every t-subset signs a message that VerifyRecovered accepts, index = rank of the key; every finished group is reproduced field by field by the Lean asGroup/ordering/transition-time functions.",
+   note="Lean kernel + standard axioms; PedersenSpec (kyber's protocol-level agreement and output correctness) is a hypothesis, sampled; go2lean facts (sort comparator, asGroup field map, seed rule, transition tail) tied by rfl; harness with real kyber; time.Now() inside startDKGExecution is not observable: the model is compared for every clock reading in the observed completion window; C16/C17 reused.",
+   technique="Lean 4 proof (list permutation/sorting, Mathlib Lagrange interpolation) + regenerated facts + multi-node differential runs with real kyber DKG + direct crypto oracle"),
+ "C07": dict(engine="dkgrun", design="§3 C07, §5 row 10, §6 (partial)",
+   text="PARTIAL. Lean theorems: resharing algebra (Mathlib): when each old dealer reshapes its share with g_i(0)=s_i and new shares are the Lagrange combination, the constant term and hence the distributed public key are unchanged, any t_new new shares sign under the old key, and an old share is in general off the new polynomial; a group accepted by validateGroupTransition keeps genesis time, seed, period and id, so with the preserved key the Info.Hash preimage is unchanged (scheme is neither compared nor hashed — stated); the chain hash ignores members, threshold, transition time; Vault.SetInfo never writes the chain info; TransitionNewGroup registers target round tRound-1, the live group/share/polynomial are the old ones under every interleaving while all stored rounds are below it and the new ones from the first stored round >= it on (callback-worker asynchrony is an explicit event); after the switch a partial valid only under the old polynomial, or from an index that left, is never admitted by the ProcessPartialBeacon checks; failed/aborted/timed-out reshares and refused transitions leave memory, key files and vault untouched. ValidateProposal pins id, genesis time and seed for members but NOT period and scheme: c07_terms_pinned_partial + counterexamples, replayed on the real Process.Packet (known findings), with the pipeline consequences proved (c07_tampered_period_pipeline). Tied to the code by regenerated guard chains / assignment lists and by reshare scripts on real dkg.Process instances (same set, +1, -1, replace, threshold up/down, abort and failure in between, boundary timings): identity fields and chain hash compared before/after on every node, old-epoch partials checked against the new polynomial, a real beacon.Handler+vault driven round by round across the transition with old/new partials handed to the real ProcessPartialBeacon, the real validateGroupTransition on single-field perturbations; all answers reproduced by the Lean model. Chain continuity itself is C02/C05; agreement on the dealer set under all schedules is PedersenSpec (sampled).",
+   note="Lean kernel + standard axioms; PedersenSpec hypothesis; VerifyPartial/IndexOf answers are oracle labels from the real verifier; go2lean guard/assignment facts tied by rfl; C08's ValidateProposal model (its own correspondence) and C17's hash layout reused; the beacon network around the transition is not run (one real handler is), liveness is C05.",
+   technique="Lean 4 proof (Mathlib Lagrange; state-machine invariants by induction over event lists) + regenerated facts + multi-node differential reshare runs + real handler/vault hand-over trace"),
  "C02": dict(engine="chain", design="§3 C02",
    text="Lean theorems over the store stack appendStore→schemeStore→base map as coded: for every sequence of Puts (aggregation and sync interleaved arbitrarily — both go through the one mutex-held appendStore.Put, a regenerated lock fact) and restarts, the stored rounds are exactly 0..head, linked by previous signatures (chained) or stripped of them (unchained), the wrappers' cached head equals the stored head; a successful Put writes exactly head+1 and changes no stored round, any other Put changes nothing (re-put of the head answers 'already' iff equal); two nodes whose stores satisfy the invariant and hold only verifying beacons agree byte for byte on every common round (induction on the round, under the explicit uniqueness-of-BLS-signatures hypothesis); the repair path cannot replace a valid beacon by a different valid one. Tied to the code by running the real newAppendStore(NewSchemeStore(base)) over trimmed bolt, untrimmed bolt and memdb against the model and against a gap-free/append-only oracle.",
    note="Lean kernel + standard axioms; base store = sorted map (C18 correspondence); sync.Mutex semantics; SigUnique hypothesis; multi-node agreement is the theorem c02_agree plus C01/C10 validity, real multi-node runs are exercised under C05.",
